@@ -185,7 +185,7 @@ def _run_obligation(args):
         except Unsupported as ex:
             unsupported = f"{type(ex).__name__}: {ex}"
             tb = traceback.extract_tb(ex.__traceback__)
-            where = [f"{f.filename}:{f.lineno}" for f in tb if "/repo/" in f.filename][-2:]
+            where = [f"{f.filename}:{f.lineno}" for f in tb if "/uxarray/" in f.filename][-2:]
             res["notes"].append(f"shim lacks a feature used at {where}: {ex}")
         except (Inconclusive, PathBudget) as ex:
             unsupported = f"{type(ex).__name__}: {ex}"
@@ -367,7 +367,8 @@ def run_property(prop, obligations, tier, seed, jobs=None, only=None):
 
 
 def report(prop, tier, seed, results, wall, known_all):
-    os.makedirs(os.path.join(VERIF, "evidence"), exist_ok=True)
+    EVD = os.environ.get("VERIF_EVIDENCE_DIR") or os.path.join(VERIF, "evidence")
+    os.makedirs(EVD, exist_ok=True)
     os.makedirs(os.path.join(VERIF, "replays"), exist_ok=True)
     rc = 0
     n_viol = 0
@@ -420,6 +421,8 @@ def report(prop, tier, seed, results, wall, known_all):
         "wall_s": round(wall, 2),
         "violations": n_viol,
     }
-    json.dump(ev, open(os.path.join(VERIF, "evidence", f"{prop}.json"), "w"), indent=1)
+    json.dump(ev, open(os.path.join(EVD, f"{prop}.json"), "w"), indent=1)
+    import uxarray as _ux
+    print(f"[{prop}] analysed library: {os.path.dirname(_ux.__file__)}")
     print(f"[{prop}] tier={tier} obligations={len(results)} discharged={ev['coverage']['discharged']} violations={n_viol} wall={wall:.1f}s rc={rc}")
     return rc
